@@ -1,0 +1,92 @@
+//go:build verif
+
+package snapshot
+
+// Contracts for govc (comment-only; compiled only with -tags verif).
+//
+//@ spec import lib/time
+//@ spec import rqlite_rsync
+//
+// ---- C11: a stream releases its hold on the store exactly once ----------------------------------
+// released[l] counts the EndRead calls made on behalf of streamer l. Both Close and the idle timer
+// run under l.mu; the invariant says the hold has been released iff the stream is marked closed,
+// so for every order of Close calls and timer firings the release happens exactly once.
+//@ ghost var released map[int]int
+//
+//@ type Store
+//@   stable mrsw, dir, catalog, logger, fullNeededPath, reapPlanPath
+//@   stable_set_in NewStore
+//
+//@ type LockingStreamer
+//@   monitor mu protects timer
+//@   invariant [once] released[self] == ite(abVal[self.closed], 1, 0)
+//@   stable str, timeout, timedOut, closed
+//@   stable_set_in NewLockingStreamer
+//
+// NewLockingStreamer: the stream starts open (not closed, nothing released) and, with a timeout,
+// its idle timer is armed with that timeout and fires checkIdle.
+//@ func NewLockingStreamer
+//@   assigns timerRunning, timerDur, timerFn
+//@   ensures [fresh] result != nil && result.str == str && result.timeout == timeout && result.closed != nil && result.timedOut != nil
+//@   ensures [idle-wired] timeout > 0 ==> (result.timer != nil && timerFn[result.timer] == method(result, "checkIdle") && timerDur[result.timer] == timeout && timerRunning[result.timer])
+//
+//@ func (*LockingStreamer) Close
+//@   requires [recv] l != nil && l.str != nil && l.str.mrsw != nil && l.closed != nil
+//@   assigns *, released, abVal, timerRunning, condBcast
+//@   ghost var was bool = false
+//@   ghost update @l.closed.Is: was = result
+//@   ghost update @l.str.mrsw.EndRead: released = update(released, l, released[l] + 1)
+//@   ensures [once] released[l] == old(released)[l] + ite(was, 0, 1)
+//@   ensures [closed] abVal[l.closed]
+//
+//@ func (*LockingStreamer) checkIdle
+//@   requires [recv] l != nil && l.str != nil && l.str.mrsw != nil && l.closed != nil && l.timedOut != nil
+//@   assigns *, released, abVal, timerRunning, timerDur, condBcast
+//@   ghost var was bool = false
+//@   ghost var idleV int = 0
+//@   ghost update @l.closed.Is: was = result
+//@   ghost update @time.Since: idleV = result
+//@   ghost update @l.str.mrsw.EndRead: released = update(released, l, released[l] + 1)
+//@   ensures [already-closed] was ==> (released[l] == old(released)[l] && abVal == old(abVal))
+//@   ensures [not-idle-yet] (!was && idleV < l.timeout) ==> (released[l] == old(released)[l] && !abVal[l.closed] && timerRunning[l.timer] && timerDur[l.timer] == l.timeout - idleV)
+//@   ensures [forced] (!was && idleV >= l.timeout) ==> (released[l] == old(released)[l] + 1 && abVal[l.closed] && abVal[l.timedOut])
+//
+// Read after a timeout never touches the inner reader.
+//@ func (*LockingStreamer) Read
+//@   requires [recv] l != nil && l.timedOut != nil
+//@   ghost var tOut bool = false
+//@   ghost update @l.timedOut.Is: tOut = result
+//@   assert @l.ReadCloser.Read: [not-after-timeout] !tOut
+//@   ensures [timeout-error] tOut ==> (result0 == 0 && result1 == ErrSnapshotReaderTimeout)
+//
+// Store.Open: the read hold is taken first; every error return gives it back exactly once; the
+// success return hands it to the LockingStreamer (no release here). (C12: the store's one-time
+// verification precedes every use of snapshot files.)
+//@ func (*Store) Open
+//@   requires [recv] s != nil && s.mrsw != nil
+//@   assigns *, abVal, timerRunning, timerDur, timerFn, released, chanClosed, condBcast
+//@   ghost var held bool = false
+//@   ghost var nEnd int = 0
+//@   ghost var verified bool = false
+//@   ghost update @s.mrsw.BeginRead: held = (result == nil)
+//@   ghost update @s.mrsw.EndRead: nEnd = nEnd + 1
+//@   assert @s.mrsw.EndRead: [release-only-if-held] held && nEnd == 0
+//@   assert @s.ensureVerified: [hold-first] held
+//@   ghost update @s.ensureVerified: verified = (result == nil)
+//@   assert @s.getSnapshots: [hold-first] held
+//@   assert @snapSet.ResolveFiles: [verified-before-use] held && verified
+//@   assert @NewChecksummedSnapshotStreamer: [verified-before-use] held && verified
+//@   assert @NewLockingStreamer: [transfer] held && nEnd == 0 && arg1 == s
+//@   ensures [release-on-error] (retErr != nil && held) ==> nEnd == 1
+//@   ensures [no-hold-no-release] !held ==> (nEnd == 0 && retErr != nil)
+//@   ensures [transfer-on-success] retErr == nil ==> (held && nEnd == 0 && rc != nil)
+//
+// Reaping runs only between BeginWrite and EndWrite of the store lock.
+//@ func (*Store) Reap
+//@   requires [recv] s != nil && s.mrsw != nil
+//@   assigns *, chanClosed, condBcast, abVal, released, timerRunning, timerDur, timerFn
+//@   ghost var w bool = false
+//@   ghost update @s.mrsw.BeginWrite: w = (result == nil)
+//@   assert @s.reap: [writer-held] w
+//@   ghost update @s.mrsw.EndWrite: w = false
+//@   ensures [released] !w
